@@ -9,17 +9,27 @@
  * (finite, orthonormal, reconstructs the tensor, computeEigenValues and
  * computeEigenVectors agree, documented 2D layout).
  *
- * Tolerances (u = epsilon of the tested type, |s| = Frobenius norm):
- *   iterative solvers (FSES Jacobi/QL/Cuppen, GTE QR), every solver in 2D:
- *     K_IT * u * |s|
- *   analytical family in 3D (TFEL Cardano, FSES analytical, FSES hybrid,
- *   Harari): K_AN * sqrt(u) * |s|.  Kopp 2008 (cited by docs/web/tensors.md:
- *   "more efficient but less accurate") shows that the closed form loses half
- *   of the digits at (nearly) repeated eigenvalues: p = m^2 - 3 c1 is computed
- *   with an absolute error k u |s|^2, hence sqrt(p) with sqrt(k u)|s|.
- *   The eigenvectors of that family come from cross products whose error grows
- *   like u |s|^2 / gap^2: reconstruction/orthonormality are demanded to the
- *   same sqrt(u) level only.
+ * Tolerances (u = epsilon of the tested type, |s| = Frobenius norm), all
+ * calibrated over 8 seeds (mutants/C03.md):
+ *   eigenvalues
+ *     FSES Jacobi / QL / Cuppen, GTE QR, every solver in 2D : 2048 u |s|
+ *     TFEL Cardano, Harari (3D)                             : 256 sqrt(u) |s|
+ *       (docs/web/tensors.md: "more efficient but less accurate"; a repeated
+ *       root of the characteristic polynomial is known to sqrt(u))
+ *     Kopp's closed form syevc3 (FSES analytical, hybrid)    :
+ *       256 sqrt(u)|s| min((|s|/|dev s|)^2, ...) see the body (uncentred
+ *       characteristic polynomial)
+ *   eigenvectors (orthonormality, reconstruction / |s|), by class of the
+ *   reference spectrum (separated / near_degenerate / degenerate):
+ *     Jacobi, QL, GTE: 2048 u; Cuppen: 5e5 u
+ *     TFEL, Harari: 256 sqrt(u) separated; 256 u/gap near degenerate and
+ *       256/1000 degenerate (cross product eigenvectors, the code merges
+ *       eigenvalues closer than 1000 u), capped at 0.5
+ *     Kopp based solvers: level of their eigenvalues when well conditioned,
+ *       0.5 (gross failure only) when ill conditioned
+ * Domain: |s|^6 and the 4th power of the non-zero components must not
+ * under/overflow (scale 1e-30..1e30, float 1e-2..1e2; tiny components are
+ * flushed to zero, counted in class in.flushed_tiny_component).
  */
 #include "gens.hxx"
 #include "TFEL/Math/stensor.hxx"
@@ -65,7 +75,7 @@ namespace {
 #define C03_K_IT 2048
 #endif
   constexpr R K_IT = C03_K_IT;   // x u |s|
-  constexpr R K_AN = 128;   // x sqrt(u) |s|
+  constexpr R K_AN = 256;   // x sqrt(u) |s|
   constexpr R K_NEAR = 256;  // x u |s| / gap, TFEL/Harari eigenvectors at near-degenerate spectra
 #ifndef C03_K_CUPPEN
 #define C03_K_CUPPEN 5e5
@@ -413,7 +423,11 @@ namespace {
               "eigenvalues of computeEigenValues and computeEigenVectors differ");
     }
     const M3 V = gen::rotationMatrixToM3(m);
-    const std::string vkey = "C03.eigenvectors." + fam + "." + sol + vcls;
+    // Harari: in the zero_j3 class a wrong eigenvalue that is still within the
+    // eigenvalue tolerance (small trace) also spoils its eigenvector: same
+    // defect, same class in the key
+    const std::string vkey =
+        "C03.eigenvectors." + fam + "." + sol + (ecls.empty() ? vcls : ecls);
     // (3) orthonormality
     const R eo = ref::norm(ref::transpose(V) * V - M3::Id());
     c.err("raw_u.orthonormality." + sol + dim + vcls, static_cast<double>(eo / u));
